@@ -14,7 +14,8 @@ RULE = (
     "final placement call. Oracle (set arithmetic over direct listings, hashlib): "
     "new = requested(expanded) & in-source - in-destination; transferred + failed partition new; "
     "every transferred id is present with reference-correct bytes; every requested id absent "
-    "afterwards is failed or missing on both sides; ids present beforehand are not re-sent nor "
+    "afterwards is failed or missing on both sides, and every id missing on both sides is handed to the "
+    "validate_status hook (called exactly once, also when nothing is new); ids present beforehand are not re-sent nor "
     "reported; source bytes unchanged. Non-trivial = a fault, a mismatching source under verify or a "
     "doubly-missing child affected a requested id; distinct = SHA-1 of the case JSON. One case in eight is the "
     "deliberate shape 'a requested directory loses a file on both sides (its .dir is withheld) while the "
@@ -58,6 +59,15 @@ def run_case(case, ctx):
             for oid in sorted(o.requested_expanded):
                 if (oid not in after or oid in halves) and oid not in fl and oid not in both_missing and oid not in tr:
                     viols.append(Viol("absent-unreported", f"requested {oid} absent afterwards, not failed, not missing"))
+            if not o.via_push:
+                # "reported ... as missing from both sides": validate_status(status) is the reporting channel
+                if o.first_status_calls != 1:
+                    viols.append(Viol("status-not-reported",
+                                      f"validate_status was called {o.first_status_calls} times"))
+                for oid in sorted(both_missing - fl - tr):
+                    if oid not in after and oid not in (o.first_status_missing or set()):
+                        viols.append(Viol("missing-unreported",
+                                          f"requested {oid} is on neither side and was not reported as missing"))
             if (tr | fl) != new:
                 extra = sorted((tr | fl) - new)
                 lack = sorted(new - (tr | fl))
